@@ -172,15 +172,26 @@ def r5_derived_lifecycle(ctx):
 
 # what decides, for a node of the call graph, between "bind its value to a `let` variable" and "inline the expression into its consumer"
 REVIEWED_INLINE_PREDICATES = {
-    'analyses::call_graph::codegen::BasicBlockVisitor::next',            # traversal order
-    'analyses::components::db::ComponentDb::hydrated_component',         # kind of node / computation
+    # kind of node / computation; `?` on the code generation of the node itself (helpers of codegen.rs are looked through)
+    'analyses::components::db::ComponentDb::hydrated_component',
     'analyses::components::hydrated::HydratedComponent::computation',
-    'analyses::call_graph::codegen::get_node_happen_befores',            # `?` on the code generation of the node itself
-    'analyses::call_graph::codegen::get_node_type_inputs',
+    'analyses::components::hydrated::HydratedComponent::output_type',
     'codegen_utils::codegen_call_block',
-    'analyses::call_graph::codegen::find_match_branching_ancestor',      # "this is the last node of the traversal"
-    'computation::Computation::output_type',                             # "the node has no output"
-    'core::cmp::PartialEq::eq', 'core::option::Option::is_none',
+    # "the node has no output"
+    'computation::Computation::output_type',
+    'core::option::Option::is_none', 'core::option::Option::is_some', 'alloc::vec::Vec::is_empty',
+    # "this is the last node of the traversal" (find_match_branching_ancestor and the traversal itself, looked through)
+    'core::cmp::PartialEq::eq', 'core::cmp::PartialEq::ne',
+    'fixedbitset::FixedBitSet::contains',
+    'petgraph::graph_impl::NodeIndex::index',
+    'petgraph::graph_impl::stable_graph::EdgeReference::weight',
+    'petgraph::graph_impl::stable_graph::StableGraph::edges_directed',
+    'petgraph::visit::EdgeRef::source',
+    'petgraph::visit::IntoNeighborsDirected::neighbors_directed',
+    'petgraph::visit::VisitMap::is_visited',
+    'petgraph::visit::VisitMap::visit',
+    'petgraph::visit::traversal::DfsPostOrder::new',
+    'petgraph::visit::traversal::DfsPostOrder::next',
 }
 
 
@@ -216,10 +227,11 @@ def r6_bound_once(ctx):
         if l is None:
             continue
         sl, _ = backward_slice(b, l, defs)
-        for c, _, _ in slice_calls(sl):
-            c = strip_generics(c or '')
-            if c.startswith('pavexc::') or c.startswith('petgraph::') or c.split('::')[-1] in ('eq', 'ne', 'is_none', 'is_some', 'any', 'all', 'count', 'len', 'is_empty', 'contains'):
-                found.setdefault(c.replace('pavexc::compiler::', ''), b.loc(W))
+        from .compiler_common import expand_same_file, slice_calls_with_closures
+        for c0 in slice_calls_with_closures(b, sl):
+            for c in expand_same_file(ctx, 'pavexc', c0, b.file, stop={fn}):
+                if c.startswith('pavexc::') or c.startswith('petgraph::') or c.split('::')[-1] in ('eq', 'ne', 'is_none', 'is_some', 'any', 'all', 'count', 'len', 'is_empty', 'contains'):
+                    found.setdefault(c.replace('pavexc::compiler::', ''), b.loc(W))
     new = sorted(set(found) - REVIEWED_INLINE_PREDICATES)
     ctx.ob('C03.R6', 'bind-or-inline-decision', not new, found[new[0]] if new else b.loc(V),
            '%d branch(es) decide whether a node is bound to a variable; predicates outside the reviewed table: %s' % (n, new or 'none'))
